@@ -304,6 +304,10 @@ JoinGateM == \A x \in Names : (IsJoin(x) /\ tk[x].state = "RUNNING" /\ ax[x] = "
                 IN rearmed \/ Cardinality(fed) >= (IF D.tasks[x].join = -1 THEN Cardinality(Inbound(x)) ELSE D.tasks[x].join)
 \* finished executions stay finished
 FinishedFrozenM == [][(wf \in Final) => (wf' = wf)]_vars
+\* confluence (C02 at model level): every terminal state projects to one and the same outcome
+\* (checked with one TLC worker: the first terminal outcome seen is kept in TLC register 1)
+FinalP == <<wf, [x \in Names |-> <<tk[x].state, tk[x].next, tk[x].errHandled>>], ax>>
+Confluent == Quiet => (IF TLCGet(1) = <<>> THEN TLCSet(1, FinalP) ELSE TLCGet(1) = FinalP)
 Terminates == <>[](wf \in Final)
 TypeOK == wf \in {"none", "RUNNING", "SUCCESS", "ERROR"}
 =============================================================================
